@@ -128,7 +128,7 @@ class World:
                     used.add(('seq', sn))
                     cls['members'].append({'kind': 'seq', 'name': 'get_' + sn + 's', 'length': 'get_num_' + sn + 's', 'element': 'get_' + sn, 'type': rng.choice(SCALARS)})
                 elif kind == 'operator':
-                    op = rng.choice(['+', '-', '==', '<', '[]', '()', 'neg', 'not', 'call2'])
+                    op = rng.choice(['+', '-', '==', '<', '<=', '>=', '!=', '[]', '()', 'neg', 'not', 'call2'])
                     opname = {'neg': '-', 'not': '!', 'call2': '()'}.get(op, op)
                     if ('op', opname) in used:
                         continue
@@ -148,7 +148,7 @@ class World:
                 else:
                     cls['members'].append({'kind': 'typedef', 'name': self.fresh('T'), 'target': rng.choice(known)})
             if rng.random() < 0.3:
-                cls['members'].append({'kind': 'nested', 'name': self.fresh('In'), 'method': self.fresh('nm')})
+                cls['members'].append({'kind': 'nested', 'name': self.fresh('In'), 'method': self.fresh('nm'), 'deep': rng.choice([None, 'Deep', 'Item']), 'deep_enum': rng.choice([None, 'Kind'])})
             if rng.random() < 0.3:
                 cls['dtor'] = rng.choice(['plain', 'virtual'])
             else:
@@ -271,6 +271,14 @@ class World:
                     L.append('  class %s {' % m['name'])
                     L.append('  __published:')
                     L.append('    int %s(int q) const;' % m['method'])
+                    if m.get('deep'):
+                        # two levels down: the scoped name keeps every enclosing class (the same inner names are used in several classes)
+                        L.append('    class %s {' % m['deep'])
+                        L.append('    __published:')
+                        L.append('      int deep_method(int q) const;')
+                        L.append('    };')
+                    if m.get('deep_enum'):
+                        L.append('    enum %s { %s_%s_a = 3, %s_%s_b };' % (m['deep_enum'], m['name'], m['deep_enum'], m['name'], m['deep_enum']))
                     L.append('  };')
             if c['dtor']:
                 L.append('  %s~%s();' % ('virtual ' if c['dtor'] == 'virtual' else '', c['name']))
